@@ -75,15 +75,6 @@ func main() {
 			key = key[:i]
 		}
 		if key == "clean" && len(cp.Conflicts) == 0 {
-			if i == 0 {
-				for _, m := range g.S.Mods {
-					if tr := cp.Trees[m.Name]; tr != nil {
-						for _, l := range model.Canon(tr, model.CanonOpts{}) {
-							fmt.Println("REF", l)
-						}
-					}
-				}
-			}
 			if d := props.RefCompare(res.MS, g.S, cp); d != "" {
 				lines := strings.Split(d, "\n")
 				key = "REFDIFF " + lines[1]
